@@ -39,7 +39,7 @@ ASSUMPTIONS = ["NumPy SVD / norms of dense arrays with <= 4096 elements per side
 
 CT = 1.0e3                 # state comparisons: CT * eps * |state|
 ISO_TOL = 2e-13            # isometry defects  (observed ~1e-15)
-ID_TOL = 2e-13             # error identities, Schmidt values (relative to unit norm; observed ~1e-15)
+ID_TOL = 1e-12              # error identities, Schmidt values (relative to unit norm; observed ~1e-15)
 NONBINDING = ({}, {"D_total": 100000}, {"tol": 1e-15}, {"tol": 1e-15, "D_total": 5000}, {"D_block": 10000},
               {"tol_block": 1e-15}, {"D_total": 4096, "tol": 0, "D_block": 4096}, {"D_total": 4096, "truncate_multiplets": True})
 BINDING = ({"D_total": 1}, {"D_total": 2}, {"D_total": 2}, {"D_total": 3}, {"D_total": 4}, {"tol": 0.1}, {"tol": 0.3}, {"tol": 0.6},
@@ -50,7 +50,7 @@ BINDING = ({"D_total": 1}, {"D_total": 2}, {"D_total": 2}, {"D_total": 3}, {"D_t
 
 def plan(tier):
     if tier == "thorough":
-        return {"cases": 30000, "shards": 16, "budget_s": 1100}
+        return {"cases": 20000, "shards": 16, "budget_s": 800}
     return {"cases": 2600, "shards": 8, "budget_s": 100}
 
 
